@@ -4,7 +4,7 @@ Helper lemmas for C18 (model: `Model/Svcb.lean`, statement side: `Spec/Svcb.lean
 import DnsVerif.Spec.Svcb
 
 namespace DnsVerif.Svcb
-open DnsVerif
+open DnsVerif DnsVerif.Spec.Svcb
 
 deriving instance DecidableEq for Except
 
@@ -80,14 +80,15 @@ theorem parseSegs_keys (segs : List Bytes) : ∀ (seen : List Nat) (ps : List Pa
       cases hp : paramFromText s with
       | error e => rw [hp] at h; simp at h
       | ok p =>
-        rw [hp] at h
+        simp only [hp] at h
         by_cases hs : seen.contains p.key = true
-        · simp [hs] at h
-        · simp only [hs] at h
+        · rw [if_pos hs] at h; simp at h
+        · rw [if_neg hs] at h
+          have hs : p.key ∉ seen := by simpa using hs
           cases hr : parseSegs (p.key :: seen) rest with
-          | error e => rw [hr] at h; simp at h
+          | error e => simp [hr] at h
           | ok qs =>
-            rw [hr] at h
+            simp only [hr] at h
             simp at h
             subst h
             obtain ⟨h1, h2⟩ := ih _ _ hr
@@ -97,7 +98,7 @@ theorem parseSegs_keys (segs : List Bytes) : ∀ (seen : List Nat) (ps : List Pa
               exact h2 q hq (by rw [heq]; exact List.mem_cons_self)
             · intro q hq
               rcases List.mem_cons.mp hq with rfl | hq
-              · simpa using hs
+              · exact hs
               · intro hmem; exact h2 q hq (List.mem_cons_of_mem _ hmem)
 
 /-- what `fromText` returns: the sorted parameter list of the loop, which passed the mandatory check -/
@@ -108,17 +109,606 @@ theorem fromText_ok {t : Bytes} {l : List Param} (h : fromText t = .ok l) :
   cases hp : parseSegs [] (splitOn 0x3b t) with
   | error e => rw [hp] at h; simp at h
   | ok ps =>
-    rw [hp] at h
+    simp only [hp] at h
     cases hm : mandatoryCheck ps with
-    | error e => rw [hm] at h; simp at h
+    | error e => simp [hm] at h
     | ok u =>
-      rw [hm] at h
+      simp only [hm] at h
       simp at h
-      exact ⟨ps, rfl, rfl, h.symm⟩
+      exact ⟨ps, rfl, hm, h.symm⟩
 
 theorem fromText_keys_lt {t : Bytes} {l : List Param} (h : fromText t = .ok l) :
     l.Pairwise fun x y => x.key < y.key := by
   obtain ⟨ps, hp, _, rfl⟩ := fromText_ok h
   exact sortBy_strict Param.key ps (parseSegs_keys _ _ _ hp).1
+
+def Fits (l : List Param) : Prop := ∀ p ∈ l, p.value.length < 65536
+def KeysSmall (l : List Param) : Prop := ∀ p ∈ l, p.key < 65536
+
+theorem u16_dec (n : Nat) (h : n < 65536) :
+    (UInt8.ofNat (n / 256 % 256)).toNat * 256 + (UInt8.ofNat (n % 256)).toNat = n := by
+  simp only [UInt8.toNat_ofNat']
+  omega
+
+theorem decodeRaw_toWire (l : List Param) (hf : Fits l) (hk : KeysSmall l) :
+    ∀ fuel, l.length ≤ fuel → decodeRaw fuel (toWire l) = some (l.map fun p => (p.key, p.value)) := by
+  induction l with
+  | nil => intro fuel _; cases fuel <;> simp [toWire, decodeRaw]
+  | cons p ps ih =>
+    intro fuel hfuel
+    cases fuel with
+    | zero => simp at hfuel
+    | succ fuel =>
+      have hp := hf p List.mem_cons_self
+      have hkp := hk p List.mem_cons_self
+      have ih' := ih (fun q hq => hf q (List.mem_cons_of_mem _ hq))
+        (fun q hq => hk q (List.mem_cons_of_mem _ hq)) fuel (by simpa using hfuel)
+      have hw : toWire (p :: ps) =
+          UInt8.ofNat (p.key / 256 % 256) :: UInt8.ofNat (p.key % 256) ::
+          UInt8.ofNat (p.value.length / 256 % 256) :: UInt8.ofNat (p.value.length % 256) ::
+          (p.value ++ toWire ps) := by
+        simp [toWire, paramToWire, u16be]
+      rw [hw]
+      simp only [decodeRaw]
+      rw [u16_dec _ hp, u16_dec _ hkp]
+      simp [ih']
+
+theorem keyOfName_mem {n : Bytes} {k : Nat} (h : keyOfName n = some k) : (k, n) ∈ keyNames := by
+  unfold keyOfName at h
+  cases hf : keyNames.find? (fun kv => kv.2 = n) with
+  | none => simp [hf] at h
+  | some kv =>
+    simp [hf] at h
+    have hm := List.mem_of_find?_eq_some hf
+    have hp := List.find?_some hf
+    simp at hp
+    subst hp h
+    exact hm
+
+theorem keyOfName_le {n : Bytes} {k : Nat} (h : keyOfName n = some k) : k ≤ 6 := by
+  have := keyOfName_mem h
+  simp [keyNames] at this
+  omega
+
+theorem keyOfName_name {n : Bytes} {k : Nat} (h : keyOfName n = some k) : n = nameOfKey k := by
+  have := keyOfName_mem h
+  simp [keyNames] at this
+  rcases this with ⟨rfl, rfl⟩ | ⟨rfl, rfl⟩ | ⟨rfl, rfl⟩ | ⟨rfl, rfl⟩ | ⟨rfl, rfl⟩ | ⟨rfl, rfl⟩ | ⟨rfl, rfl⟩ <;> decide
+
+theorem mandatoryLoop_ok (vs : List Bytes) : ∀ (seen : List Nat) (b : Bytes),
+    mandatoryLoop vs seen = .ok b →
+    ∃ ks : List Nat, vs.map keyOfName = ks.map some ∧ b = ks.flatMap u16be ∧ 0 ∉ ks ∧ ks.Nodup ∧
+      ∀ k ∈ ks, k ∉ seen := by
+  induction vs with
+  | nil => intro seen b h; simp [mandatoryLoop] at h; subst h; exact ⟨[], by simp⟩
+  | cons v rest ih =>
+    intro seen b h
+    unfold mandatoryLoop at h
+    cases hk : keyOfName v with
+    | none => simp [hk] at h
+    | some k =>
+      simp only [hk] at h
+      by_cases h0 : k = 0
+      · rw [if_pos h0] at h; simp at h
+      · rw [if_neg h0] at h
+        by_cases hs : seen.contains k = true
+        · rw [if_pos hs] at h; simp at h
+        · rw [if_neg hs] at h
+          have hs : k ∉ seen := by simpa using hs
+          cases hr : mandatoryLoop rest (k :: seen) with
+          | error e => simp [hr] at h
+          | ok b' =>
+            simp only [hr] at h
+            simp at h
+            obtain ⟨ks, h1, h2, h3, h4, h5⟩ := ih _ _ hr
+            refine ⟨k :: ks, by simp [hk, h1], by simp [← h, h2], ?_, ?_, ?_⟩
+            · simp; exact ⟨fun h => h0 h.symm, h3⟩
+            · refine List.nodup_cons.mpr ⟨?_, h4⟩
+              intro hmem; exact h5 k hmem List.mem_cons_self
+            · intro x hx
+              rcases List.mem_cons.mp hx with rfl | hx
+              · exact hs
+              · intro hmem; exact h5 x hx (List.mem_cons_of_mem _ hmem)
+
+theorem u16s_flatMap (ks : List Nat) (h : ∀ k ∈ ks, k < 65536) : u16s (ks.flatMap u16be) = some ks := by
+  induction ks with
+  | nil => simp [u16s]
+  | cons k ks ih =>
+    have hk := h k List.mem_cons_self
+    have := ih (fun x hx => h x (List.mem_cons_of_mem _ hx))
+    simp only [List.flatMap_cons, u16be, List.cons_append, List.nil_append, u16s, this]
+    simp only [UInt8.toNat_ofNat', Option.map_some]
+    congr 2
+    omega
+
+/-- the segments the loop of `FromText` looks at: those before the first empty one -/
+def liveSegs (t : Bytes) : List Bytes := (splitOn 0x3b t).takeWhile (fun s => !s.isEmpty)
+
+/-- segment-by-segment: each live segment parses to the parameter at the same position -/
+inductive Parsed : List Bytes → List Param → Prop
+  | nil : Parsed [] []
+  | cons {s p ss ps} : paramFromText s = .ok p → Parsed ss ps → Parsed (s :: ss) (p :: ps)
+
+theorem Parsed.of_left {ss ps} (h : Parsed ss ps) {s} (hs : s ∈ ss) :
+    ∃ p ∈ ps, paramFromText s = .ok p := by
+  induction h with
+  | nil => simp at hs
+  | cons h1 _ ih =>
+    rcases List.mem_cons.mp hs with rfl | hs
+    · exact ⟨_, List.mem_cons_self, h1⟩
+    · obtain ⟨p, hp, h⟩ := ih hs; exact ⟨p, List.mem_cons_of_mem _ hp, h⟩
+
+theorem Parsed.of_right {ss ps} (h : Parsed ss ps) {p} (hp : p ∈ ps) :
+    ∃ s ∈ ss, paramFromText s = .ok p := by
+  induction h with
+  | nil => simp at hp
+  | cons h1 _ ih =>
+    rcases List.mem_cons.mp hp with rfl | hp
+    · exact ⟨_, List.mem_cons_self, h1⟩
+    · obtain ⟨s, hs, h⟩ := ih hp; exact ⟨s, List.mem_cons_of_mem _ hs, h⟩
+
+theorem parseSegs_forall2 (segs : List Bytes) : ∀ (seen : List Nat) (ps : List Param),
+    parseSegs seen segs = .ok ps →
+    Parsed (segs.takeWhile (fun s => !s.isEmpty)) ps := by
+  induction segs with
+  | nil => intro seen ps h; simp [parseSegs] at h; subst h; exact Parsed.nil
+  | cons s rest ih =>
+    intro seen ps h
+    unfold parseSegs at h
+    by_cases he : s.isEmpty = true
+    · rw [if_pos he] at h; simp at h; subst h; simp only [List.takeWhile, he]; exact Parsed.nil
+    · rw [if_neg he] at h
+      cases hp : paramFromText s with
+      | error e => simp [hp] at h
+      | ok p =>
+        simp only [hp] at h
+        by_cases hs : seen.contains p.key = true
+        · rw [if_pos hs] at h; simp at h
+        · rw [if_neg hs] at h
+          cases hr : parseSegs (p.key :: seen) rest with
+          | error e => simp [hr] at h
+          | ok qs =>
+            simp only [hr] at h
+            simp at h
+            subst h
+            have : (!s.isEmpty) = true := by simpa using he
+            simp only [List.takeWhile, this]
+            exact Parsed.cons hp (ih _ _ hr)
+
+theorem pairwise_key_unique {ps : List Param} (h : ps.Pairwise fun x y => x.key ≠ y.key)
+    {p q : Param} (hp : p ∈ ps) (hq : q ∈ ps) (hk : p.key = q.key) : p = q := by
+  induction ps with
+  | nil => simp at hp
+  | cons a as ih =>
+    obtain ⟨h1, h2⟩ := List.pairwise_cons.mp h
+    rcases List.mem_cons.mp hp with rfl | hp' <;> rcases List.mem_cons.mp hq with rfl | hq'
+    · rfl
+    · exact absurd hk (h1 q hq')
+    · exact absurd hk.symm (h1 p hp')
+    · exact ih h2 hp' hq'
+
+/-- the `mandatory` check of `FromText`, as a statement about the accepted list -/
+theorem mandatoryCheck_ok {ps : List Param} (hd : ps.Pairwise fun x y => x.key ≠ y.key)
+    (h : mandatoryCheck ps = .ok ()) {p : Param} (hp : p ∈ ps) (hk : p.key = 0)
+    {ks : List Nat} (hks : u16s p.value = some ks) : ∀ k ∈ ks, ∃ q ∈ ps, q.key = k := by
+  unfold mandatoryCheck at h
+  cases hf : ps.find? (fun x => x.key = 0) with
+  | none =>
+    have := List.find?_eq_none.mp hf p hp
+    simp [hk] at this
+  | some m =>
+    have hm := List.mem_of_find?_eq_some hf
+    have hm0 : m.key = 0 := by simpa using List.find?_some hf
+    have : m = p := pairwise_key_unique hd hm hp (by rw [hm0, hk])
+    subst this
+    simp only [hf, hks] at h
+    by_cases hall : (ks.all fun k => ps.any fun x => x.key = k) = true
+    · intro k hk'
+      have := List.all_eq_true.mp hall k hk'
+      simpa using this
+    · rw [if_neg hall] at h; simp at h
+
+theorem paramFromText_ok {s : Bytes} {q : Param} (h : paramFromText s = .ok q) :
+    ∃ n v, cut 0x3d s = some (n, v) ∧ keyOfName n = some q.key ∧
+      marshalValue q.key (trimQuotes v) = .ok q.value := by
+  unfold paramFromText at h
+  cases hc : cut 0x3d s with
+  | none => simp [hc] at h
+  | some nv =>
+    obtain ⟨n, v⟩ := nv
+    simp only [hc] at h
+    cases hk : keyOfName n with
+    | none => simp [hk] at h
+    | some k =>
+      simp only [hk] at h
+      by_cases he : k ≠ 2 ∧ v.length = 0
+      · rw [if_pos he] at h; simp at h
+      · rw [if_neg he] at h
+        cases hm : marshalValue k (trimQuotes v) with
+        | error e => simp [hm] at h
+        | ok d =>
+          simp only [hm] at h
+          simp at h
+          subst h
+          exact ⟨n, v, rfl, hk, hm⟩
+
+def mandName : Bytes := nameOfKey 0
+
+theorem mandatory_accepted {t : Bytes} {l : List Param} (h : fromText t = .ok l) :
+    ∀ seg ∈ liveSegs t, ∀ v, cut 0x3d seg = some (mandName, v) →
+      (splitOn 0x7c (trimQuotes v)).Nodup ∧ mandName ∉ splitOn 0x7c (trimQuotes v) ∧
+      ∀ n ∈ splitOn 0x7c (trimQuotes v), ∃ seg' ∈ liveSegs t, ∃ v', cut 0x3d seg' = some (n, v') := by
+  obtain ⟨ps, hp, hm, _⟩ := fromText_ok h
+  have hpar : Parsed (liveSegs t) ps := parseSegs_forall2 _ _ _ hp
+  have hd := (parseSegs_keys _ _ _ hp).1
+  intro seg hseg v hcut
+  obtain ⟨p, hpm, hpf⟩ := hpar.of_left hseg
+  obtain ⟨n, v1, hc1, hk1, hmv⟩ := paramFromText_ok hpf
+  rw [hcut] at hc1
+  simp at hc1
+  obtain ⟨rfl, rfl⟩ := hc1
+  have hk0 : p.key = 0 := by
+    have : keyOfName mandName = some 0 := by decide
+    rw [this] at hk1; exact (Option.some.inj hk1).symm
+  rw [hk0] at hmv
+  simp only [marshalValue, mandatoryMarshaller] at hmv
+  obtain ⟨ks, h1, h2, h3, h4, _⟩ := mandatoryLoop_ok _ _ _ hmv
+  have hperm := sortBy_perm (fun v => (keyOfName v).getD 0) (splitOn 0x7c (trimQuotes v))
+  have hkeys : ∀ n ∈ splitOn 0x7c (trimQuotes v), ∃ k ∈ ks, keyOfName n = some k := by
+    intro n hn
+    have : keyOfName n ∈ (sortBy (fun v => (keyOfName v).getD 0) (splitOn 0x7c (trimQuotes v))).map keyOfName :=
+      List.mem_map.mpr ⟨n, hperm.mem_iff.mpr hn, rfl⟩
+    rw [h1] at this
+    obtain ⟨k, hk, hk'⟩ := List.mem_map.mp this
+    exact ⟨k, hk, hk'.symm⟩
+  have hsmall : ∀ k ∈ ks, k < 65536 := by
+    intro k hk
+    have : some k ∈ ks.map some := List.mem_map.mpr ⟨k, hk, rfl⟩
+    rw [← h1] at this
+    obtain ⟨n, _, hn⟩ := List.mem_map.mp this
+    have := keyOfName_le hn
+    omega
+  refine ⟨?_, ?_, ?_⟩
+  · have : ((sortBy (fun v => (keyOfName v).getD 0) (splitOn 0x7c (trimQuotes v))).map keyOfName).Nodup := by
+      rw [h1]; exact List.Pairwise.map some (fun a b h h' => h (Option.some.inj h')) h4
+    exact hperm.nodup_iff.mp (List.Pairwise.of_map keyOfName (fun a b h hab => h (by rw [hab])) this)
+  · intro hmem
+    obtain ⟨k, hk, hk'⟩ := hkeys _ hmem
+    have : keyOfName mandName = some 0 := by decide
+    rw [this] at hk'
+    have : k = 0 := (Option.some.inj hk').symm
+    subst this
+    exact h3 hk
+  · intro n hn
+    obtain ⟨k, hk, hk'⟩ := hkeys n hn
+    have hu : u16s p.value = some ks := by rw [h2]; exact u16s_flatMap ks hsmall
+    obtain ⟨q, hq, hqk⟩ := mandatoryCheck_ok hd hm hpm hk0 hu k hk
+    obtain ⟨seg', hs', hpf'⟩ := hpar.of_right hq
+    obtain ⟨n', v', hc', hk'', _⟩ := paramFromText_ok hpf'
+    rw [hqk] at hk''
+    have : n' = n := by rw [keyOfName_name hk'', keyOfName_name hk']
+    subst this
+    exact ⟨seg', hs', v', hc'⟩
+
+theorem decodeAddrs_flatten (n : Nat) (hn : 0 < n) (addrs : List Bytes) (h : ∀ a ∈ addrs, a.length = n) :
+    ∀ fuel, addrs.length ≤ fuel → decodeAddrs n fuel addrs.flatten = some addrs := by
+  induction addrs with
+  | nil => intro fuel _; cases fuel <;> simp [decodeAddrs]
+  | cons a as ih =>
+    intro fuel hf
+    cases fuel with
+    | zero => simp at hf
+    | succ fuel =>
+      have ha := h a List.mem_cons_self
+      have ih' := ih (fun x hx => h x (List.mem_cons_of_mem _ hx)) fuel (by simpa using hf)
+      cases a with
+      | nil => simp at ha; omega
+      | cons c cs =>
+        simp only [List.flatten_cons, List.cons_append]
+        unfold decodeAddrs
+        have hlen : ¬ (c :: (cs ++ as.flatten)).length < n := by simp at ha ⊢; omega
+        rw [if_neg hlen]
+        have h1 : (c :: (cs ++ as.flatten)).take n = c :: cs := by
+          rw [← List.cons_append, List.take_left' ha]
+        have h2 : (c :: (cs ++ as.flatten)).drop n = as.flatten := by
+          rw [← List.cons_append, List.drop_left' ha]
+        rw [h1, h2, ih']; rfl
+
+theorem decodeAlpn_flatMap (ids : List Bytes) (h : ∀ a ∈ ids, 1 ≤ a.length ∧ a.length ≤ 255) :
+    ∀ fuel, ids.length ≤ fuel →
+      decodeAlpn fuel (ids.flatMap fun a => UInt8.ofNat a.length :: a) = some ids := by
+  induction ids with
+  | nil => intro fuel _; cases fuel <;> simp [decodeAlpn]
+  | cons a as ih =>
+    intro fuel hf
+    cases fuel with
+    | zero => simp at hf
+    | succ fuel =>
+      obtain ⟨h1, h2⟩ := h a List.mem_cons_self
+      have ih' := ih (fun x hx => h x (List.mem_cons_of_mem _ hx)) fuel (by simpa using hf)
+      simp only [List.flatMap_cons, List.cons_append]
+      unfold decodeAlpn
+      have hl : (UInt8.ofNat a.length).toNat = a.length := by
+        simp only [UInt8.toNat_ofNat']; omega
+      rw [hl, if_neg (by omega), if_neg (by simp)]
+      rw [List.take_left' rfl, List.drop_left' rfl, ih']; rfl
+
+theorem decodeKeys_eq_u16s (b : Bytes) : decodeKeys b = u16s b := by
+  induction b using u16s.induct with
+  | case1 => rfl
+  | case2 => rfl
+  | case3 a b rest ih => simp [decodeKeys, u16s, ih]
+
+theorem insertBy_map {α β} (g : α → β) (k : β → Nat) (a : α) (l : List α) :
+    insertBy k (g a) (l.map g) = (insertBy (fun x => k (g x)) a l).map g := by
+  induction l with
+  | nil => rfl
+  | cons b bs ih =>
+    simp only [List.map_cons, insertBy]
+    by_cases h : k (g a) ≤ k (g b)
+    · rw [if_pos h, if_pos h]; rfl
+    · rw [if_neg h, if_neg h, List.map_cons, ih]
+
+theorem sortBy_map {α β} (g : α → β) (k : β → Nat) (l : List α) :
+    sortBy k (l.map g) = (sortBy (fun x => k (g x)) l).map g := by
+  induction l with
+  | nil => rfl
+  | cons a as ih => simp only [List.map_cons, sortBy, ih, insertBy_map]
+
+theorem strictlyIncreasing_of_pairwise (l : List Nat) (h : l.Pairwise (· < ·)) :
+    strictlyIncreasing l = true := by
+  induction l with
+  | nil => rfl
+  | cons a as ih =>
+    cases as with
+    | nil => rfl
+    | cons b bs =>
+      obtain ⟨h1, h2⟩ := List.pairwise_cons.mp h
+      simp [strictlyIncreasing, h1 b List.mem_cons_self, ih h2]
+
+theorem mapM'_some {α β} (f : α → Option β) (l : List α) (r : List β)
+    (h : mapM' f l = some r) : l.map f = r.map some := by
+  induction l generalizing r with
+  | nil => simp [mapM'] at h; subst h; rfl
+  | cons a as ih =>
+    simp only [mapM'] at h
+    cases hfa : f a with
+    | none => simp [hfa] at h
+    | some x =>
+      cases hm : mapM' f as with
+      | none => simp [hfa, hm] at h
+      | some ys =>
+        simp [hfa, hm] at h
+        subst h
+        simp [hfa, ih ys hm]
+
+theorem ipv4Loop_ok (as : List Bytes) : ∀ b, ipv4Loop as = .ok b →
+    ∃ addrs, mapM' (fun a => (parseIP a).bind to4) as = some addrs ∧ b = addrs.flatten := by
+  induction as with
+  | nil => intro b h; simp [ipv4Loop] at h; subst h; exact ⟨[], rfl, rfl⟩
+  | cons a rest ih =>
+    intro b h
+    unfold ipv4Loop at h
+    cases hp : parseIP a with
+    | none => simp [hp] at h
+    | some ip =>
+      simp only [hp] at h
+      cases h4 : to4 ip with
+      | none => simp [h4] at h
+      | some v4 =>
+        simp only [h4] at h
+        cases hr : ipv4Loop rest with
+        | error e => simp [hr] at h
+        | ok b' =>
+          simp only [hr] at h
+          simp at h
+          obtain ⟨addrs, h1, h2⟩ := ih _ hr
+          refine ⟨v4 :: addrs, ?_, by simp [← h, h2]⟩
+          simp [mapM', hp, h4, h1]
+
+theorem ipv6Loop_ok (as : List Bytes) : ∀ b, ipv6Loop as = .ok b →
+    ∃ addrs, mapM' (fun a => if a.contains 0x3a then parseIP a else none) as = some addrs ∧
+      b = addrs.flatten := by
+  induction as with
+  | nil => intro b h; simp [ipv6Loop] at h; subst h; exact ⟨[], rfl, rfl⟩
+  | cons a rest ih =>
+    intro b h
+    unfold ipv6Loop at h
+    cases hc : a.contains 0x3a with
+    | false => simp only [hc, Bool.not_false, if_true] at h; simp at h
+    | true =>
+      simp only [hc, Bool.not_true, Bool.false_eq_true, if_false] at h
+      cases hp : parseIP a with
+      | none => simp [hp] at h
+      | some ip =>
+        simp only [hp] at h
+        cases hr : ipv6Loop rest with
+        | error e => simp [hr] at h
+        | ok b' =>
+          simp only [hr] at h
+          simp at h
+          obtain ⟨addrs, h1, h2⟩ := ih _ hr
+          refine ⟨ip :: addrs, ?_, by simp [← h, h2]⟩
+          simp only [mapM', hc, if_true, hp, h1]
+
+theorem nodupNat_pairwise (l : List Nat) (h : nodupNat l = true) : l.Pairwise (· ≠ ·) := by
+  induction l with
+  | nil => exact List.Pairwise.nil
+  | cons a as ih =>
+    simp [nodupNat] at h
+    exact List.pairwise_cons.mpr ⟨fun x hx hax => h.1 (hax ▸ hx), ih h.2⟩
+
+theorem splitOn_ne_nil (sep : UInt8) (b : Bytes) : splitOn sep b ≠ [] := by
+  induction b with
+  | nil => simp [splitOn]
+  | cons c cs ih =>
+    unfold splitOn
+    by_cases h : c = sep
+    · rw [if_pos h]; simp
+    · rw [if_neg h]
+      cases hs : splitOn sep cs with
+      | nil => simp
+      | cons x xs => simp
+
+theorem conf_alpn (w data : Bytes) (dv : Value) (hm : marshalValue 1 w = .ok data)
+    (hd : declValue 1 w = some dv) (hv : valid dv = true) :
+    decodeValue 1 data = some dv ∧ dv.key = 1 := by
+  simp [marshalValue, alpnMarshaller] at hm
+  simp [declValue] at hd
+  subst hd hm
+  simp [valid] at hv
+  have hne : splitOn 0x7c w ≠ [] := splitOn_ne_nil _ _
+  have hlen : (splitOn 0x7c w).length ≤
+      ((splitOn 0x7c w).flatMap fun a => UInt8.ofNat a.length :: a).length := by
+    generalize splitOn 0x7c w = l
+    induction l with
+    | nil => simp
+    | cons a as ih => simp at ih ⊢; omega
+  have := decodeAlpn_flatMap (splitOn 0x7c w) (fun a ha => hv.2 a ha) _ hlen
+  simp only [decodeValue, this]
+  simp [hne, Value.key]
+
+theorem conf_port (w data : Bytes) (dv : Value) (hm : marshalValue 3 w = .ok data)
+    (hd : declValue 3 w = some dv) :
+    decodeValue 3 data = some dv ∧ dv.key = 3 := by
+  simp only [marshalValue, portMarshaller] at hm
+  simp only [declValue] at hd
+  cases hp : parseUint16 w with
+  | none => simp [hp] at hm
+  | some n =>
+    simp [hp] at hm hd
+    subst hm hd
+    have hn : n < 65536 := by
+      unfold parseUint16 at hp
+      split at hp
+      · simp at hp
+      · split at hp
+        · simp only at hp
+          split at hp
+          · simp at hp; omega
+          · simp at hp
+        · simp at hp
+    simp only [decodeValue, u16be, Value.key, UInt8.toNat_ofNat', and_true]
+    congr 2
+    omega
+
+theorem flatten_length_ge (n : Nat) (hn : 0 < n) (addrs : List Bytes) (h : ∀ a ∈ addrs, a.length = n) :
+    addrs.length ≤ addrs.flatten.length := by
+  induction addrs with
+  | nil => simp
+  | cons a as ih =>
+    have := h a List.mem_cons_self
+    have := ih (fun x hx => h x (List.mem_cons_of_mem _ hx))
+    simp only [List.flatten_cons, List.length_append, List.length_cons]; omega
+
+theorem conf_ipv4 (w data : Bytes) (dv : Value) (hm : marshalValue 4 w = .ok data)
+    (hd : declValue 4 w = some dv) (hv : valid dv = true) :
+    decodeValue 4 data = some dv ∧ dv.key = 4 := by
+  simp only [marshalValue, ipv4hintMarshaller] at hm
+  obtain ⟨addrs, h1, h2⟩ := ipv4Loop_ok _ _ hm
+  simp only [declValue, h1, Option.map_some] at hd
+  have hd := Option.some.inj hd
+  subst hd h2
+  simp [valid] at hv
+  have hall : ∀ a ∈ addrs, a.length = 4 := fun a ha => hv.2 a ha
+  have := decodeAddrs_flatten 4 (by omega) addrs hall _ (flatten_length_ge 4 (by omega) addrs hall)
+  simp only [decodeValue, this]
+  simp [hv.1, Value.key]
+
+theorem conf_ipv6 (w data : Bytes) (dv : Value) (hm : marshalValue 6 w = .ok data)
+    (hd : declValue 6 w = some dv) (hv : valid dv = true) :
+    decodeValue 6 data = some dv ∧ dv.key = 6 := by
+  simp only [marshalValue, ipv6hintMarshaller] at hm
+  obtain ⟨addrs, h1, h2⟩ := ipv6Loop_ok _ _ hm
+  simp only [declValue, h1, Option.map_some] at hd
+  have hd := Option.some.inj hd
+  subst hd h2
+  simp [valid] at hv
+  have hall : ∀ a ∈ addrs, a.length = 16 := fun a ha => hv.2 a ha
+  have := decodeAddrs_flatten 16 (by omega) addrs hall _ (flatten_length_ge 16 (by omega) addrs hall)
+  simp only [decodeValue, this]
+  simp [hv.1, Value.key]
+
+theorem conf_ech (w data : Bytes) (dv : Value) (hm : marshalValue 5 w = .ok data)
+    (hd : declValue 5 w = some dv) :
+    decodeValue 5 data = some dv ∧ dv.key = 5 := by
+  simp only [marshalValue, echMarshaller] at hm
+  simp only [declValue] at hd
+  cases hb : b64Decode w with
+  | none => simp [hb] at hm
+  | some b =>
+    simp [hb] at hm hd
+    subst hm hd
+    simp [decodeValue, Value.key]
+
+theorem conf_nda (w data : Bytes) (dv : Value) (hm : marshalValue 2 w = .ok data)
+    (hd : declValue 2 w = some dv) :
+    decodeValue 2 data = some dv ∧ dv.key = 2 := by
+  simp only [marshalValue, nodefaultalpnMarshaller] at hm
+  simp only [declValue] at hd
+  by_cases hw : w = []
+  · subst hw
+    simp at hm hd
+    subst hm hd
+    simp [decodeValue, Value.key]
+  · simp [hw] at hd
+
+theorem map_getD_of_map_some (l : List Bytes) (ks : List Nat)
+    (h : l.map keyOfName = ks.map some) : l.map (fun n => (keyOfName n).getD 0) = ks := by
+  have := congrArg (List.map (fun o : Option Nat => o.getD 0)) h
+  simpa [List.map_map, Function.comp_def] using this
+
+theorem conf_mand (w data : Bytes) (dv : Value) (hm : marshalValue 0 w = .ok data)
+    (hd : declValue 0 w = some dv) (hv : valid dv = true) :
+    decodeValue 0 data = some dv ∧ dv.key = 0 := by
+  simp only [marshalValue, mandatoryMarshaller] at hm
+  obtain ⟨ks, h1, h2, _, _, _⟩ := mandatoryLoop_ok _ _ _ hm
+  simp only [declValue] at hd
+  cases hk' : mapM' keyOfName (splitOn 0x7c w) with
+  | none => simp [hk'] at hd
+  | some ks' =>
+    simp only [hk', Option.map_some] at hd
+    have hd := Option.some.inj hd
+    have e1 := map_getD_of_map_some _ _ (mapM'_some _ _ _ hk')
+    have e2 := map_getD_of_map_some _ _ h1
+    have hks : ks = sortBy id ks' := by
+      rw [← e1, sortBy_map, ← e2]; rfl
+    subst hd
+    rw [← hks] at hv
+    simp [valid] at hv
+    obtain ⟨⟨hne, hnd⟩, h0⟩ := hv
+    have hsmall : ∀ k ∈ ks, k < 65536 := by
+      intro k hk
+      have : some k ∈ ks.map some := List.mem_map.mpr ⟨k, hk, rfl⟩
+      rw [← h1] at this
+      obtain ⟨n, _, hn⟩ := List.mem_map.mp this
+      have := keyOfName_le hn
+      omega
+    have hsorted : ks.Pairwise (· < ·) := by
+      have hs : ks.Pairwise (fun x y => id x ≤ id y) := by rw [hks]; exact sortBy_sorted id ks'
+      exact (hs.and (nodupNat_pairwise _ hnd)).imp (fun ⟨a, b⟩ => Nat.lt_of_le_of_ne a b)
+    have hdec : decodeKeys data = some ks := by
+      rw [decodeKeys_eq_u16s, h2]; exact u16s_flatMap ks hsmall
+    simp only [decodeValue, hdec]
+    have hsi := strictlyIncreasing_of_pairwise ks hsorted
+    simp [hne, hsi, h0, Value.key, ← hks]
+
+/-- per parameter: an RFC 9460 reader of the emitted value sees exactly the declared value -/
+theorem value_conformant {seg : Bytes} {p : Param} {dv : Value}
+    (hp : paramFromText seg = .ok p) (hd : declSeg seg = some dv) (hv : valid dv = true) :
+    decodeValue p.key p.value = some dv ∧ dv.key = p.key := by
+  obtain ⟨n, v, hc, hk, hm⟩ := paramFromText_ok hp
+  simp only [declSeg, hc, hk] at hd
+  have hle := keyOfName_le hk
+  generalize p.key = k at *
+  match k, hle with
+  | 0, _ => exact conf_mand _ _ _ hm hd hv
+  | 1, _ => exact conf_alpn _ _ _ hm hd hv
+  | 2, _ => exact conf_nda _ _ _ hm hd
+  | 3, _ => exact conf_port _ _ _ hm hd
+  | 4, _ => exact conf_ipv4 _ _ _ hm hd hv
+  | 5, _ => exact conf_ech _ _ _ hm hd
+  | 6, _ => exact conf_ipv6 _ _ _ hm hd hv
+  | k + 7, h => omega
 
 end DnsVerif.Svcb
